@@ -13,7 +13,8 @@ RULE = (
     "Histories from the C11/C12 generators (<=10 operations in the enumerated part) on Solver, SolverCacheless, SolverComposite and "
     "SolverHybrid. A counting pass learns how many backend solver checks every operation performs (z3.Solver.check is wrapped from "
     "outside claripy). Then for EVERY operation and EVERY check index inside it the history is re-run from scratch with a failure "
-    "injected at exactly that call: kind A returns 'unknown' without running the real check, kind B runs it and then reports unknown, "
+    "injected at exactly that call: kind A returns 'unknown' without running the real check, kind B runs it and then reports unknown, kind C raises z3.Z3Exception "
+    "('reached max unfolding' / 'out of memory' / 'canceled') as Z3's sequence solver and memory limit do, "
     "with reason_unknown() answering timeout / max. resource limit exceeded / canceled (kind x reason rotates over positions in the "
     "quick tier, full product in the thorough tier). Oracle: the faulted operation must raise a ClaripyError that is not an UnsatError "
     "(returning an answer is a violation); every later answer, including from branches taken afterwards, is checked against the "
